@@ -112,6 +112,93 @@ Theorem the_premises_for_every_operation_are_satisfiable :
   side_ok_every' demo_every_history empty_db /\ times_ok 0 demo_every_history /\ Inv empty_db.
 Proof. exact demo_every_side_ok. Qed.
 
+
+(* ---- caller-managed transactions (proofs in ProofRefineTx.v) ---- *)
+From Redka Require Import ProofRefineTx.
+
+(* a caller-managed transaction whose callback returns the first error it sees (DB.Update; EXEC): same results, same error at the same call, same committed / rolled-back outcome, final states related, invariant kept.  [block_ok]: the side conditions of the step theorems at every working state of the block; KDeleteAll is excluded (inside a transaction it cannot run: refuted below) *)
+Theorem a_transaction_refines_the_specifications_transaction : forall now ops d s,
+  no_delete_all ops -> block_ok now ops d -> Inv d -> R now d s ->
+  let '(d', rs) := exec_update now ops true d in
+  let '(s', rs') := spec_update now ops true s in
+  R now d' s' /\ Inv d'
+  /\ Forall2 (res_agree true) (combine ops rs) rs'
+  /\ map o_err rs = map o_err rs'
+  /\ snd (exec_block now ops true d) = snd (spec_block now ops true s).
+Proof. exact tx_refines. Qed.
+
+(* a callback that ignores errors: as long as no call fails *)
+Theorem a_transaction_without_errors_refines_too : forall now ops d s,
+  no_delete_all ops -> block_ok now ops d ->
+  Forall no_err (snd (exec_update now ops false d)) ->
+  Inv d -> R now d s ->
+  let '(d', rs) := exec_update now ops false d in
+  let '(s', rs') := spec_update now ops false s in
+  R now d' s' /\ Inv d'
+  /\ Forall2 (res_agree true) (combine ops rs) rs'
+  /\ map o_err rs = map o_err rs'
+  /\ Forall no_err rs'.
+Proof. exact tx_refines_no_error. Qed.
+
+Theorem a_committed_transaction_is_its_operations_one_by_one : forall now ops d,
+  no_delete_all ops -> snd (exec_block now ops true d) = false ->
+  exec_update now ops true d = run_impl (map (fun o => (now, o)) ops) d.
+Proof. exact committed_block_is_singles. Qed.
+
+Theorem a_call_inside_a_transaction_that_succeeds_is_the_method_on_the_handle : forall now o d,
+  o <> KDeleteAll -> is_err (snd (exec_tx true now o d)) = false -> exec_tx true now o d = exec_db now o d.
+Proof. exact exec_tx_ok_is_db. Qed.
+
+Theorem code_and_specification_fail_alike : forall now o d s,
+  step_ok_every now o d -> Inv d -> R now d s ->
+  o_err (snd (exec_db now o d)) = o_err (snd (spec_step now o s)).
+Proof. exact every_step_err_agrees. Qed.
+
+(* histories whose items are single operations or transactions *)
+Theorem every_history_with_transactions_refines_the_keyspace : forall h t0 d s,
+  side_ok_items h d -> times_ok_items t0 h -> Inv d -> R t0 d s ->
+  Forall2 (fun (ir : (Z * item) * list out) (rs' : list out) => item_agree (snd (fst ir)) (snd ir) rs')
+          (combine h (snd (run_impl_items h d))) (snd (run_spec_items h s))
+  /\ (forall tl, (match rev h with (t, _) :: _ => t | [] => t0 end) = tl ->
+        R tl (fst (run_impl_items h d)) (fst (run_spec_items h s)))
+  /\ Inv (fst (run_impl_items h d)).
+Proof. exact every_history_with_transactions_refines. Qed.
+
+Theorem every_history_with_transactions_from_the_empty_database : forall h t0,
+  side_ok_items' h empty_db -> times_ok_items t0 h ->
+  Forall2 (fun (ir : (Z * item) * list out) (rs' : list out) => item_agree (snd (fst ir)) (snd ir) rs')
+          (combine h (snd (run_impl_items h empty_db))) (snd (run_spec_items h []))
+  /\ (forall tl, (match rev h with (t, _) :: _ => t | [] => t0 end) = tl ->
+        R tl (fst (run_impl_items h empty_db)) (fst (run_spec_items h [])))
+  /\ Inv (fst (run_impl_items h empty_db)).
+Proof. exact every_history_with_transactions_from_empty_refines. Qed.
+
+(* a callback that ignores a failed call and commits keeps that call's partial effects (a multi-key SetMany that hit a key of another type has stored the keys before it): the specification does not describe that state.  This is the "transaction body that swallows an error" judged outside C07/C12 in DESIGN section 9 *)
+Theorem ignoring_an_error_and_committing_refuted :
+  Inv partial_d /\ R 2 partial_d ignored_s
+  /\ no_delete_all [partial_op] /\ block_ok 2 [partial_op] partial_d
+  /\ snd (exec_update 2 [partial_op] false partial_d) = [out_err EKeyType]
+  /\ snd (spec_update 2 [partial_op] false ignored_s) = [out_err EKeyType]
+  /\ ~ R 2 (fst (exec_update 2 [partial_op] false partial_d)) (fst (spec_update 2 [partial_op] false ignored_s))
+  /\ ~ (forall now ops d s, no_delete_all ops -> block_ok now ops d -> Inv d -> R now d s ->
+          R now (fst (exec_update now ops false d)) (fst (spec_update now ops false s))).
+Proof. exact tx_ignored_error_refuted. Qed.
+
+(* DeleteAll inside a transaction: the storage refuses (VACUUM), everything is rolled back *)
+Theorem delete_all_inside_a_transaction_refuted :
+  Inv delall_d /\ R 2 delall_d delall_s
+  /\ spec_mode true KDeleteAll = CmpNone
+  /\ exec_update 2 [KDeleteAll] true delall_d = (delall_d, [out_err (ESql SqVacuum)])
+  /\ spec_update 2 [KDeleteAll] true delall_s = ([], [out_ok VNone])
+  /\ snd (exec_block 2 [KDeleteAll] true delall_d) <> snd (spec_block 2 [KDeleteAll] true delall_s)
+  /\ ~ R 2 (fst (exec_update 2 [KDeleteAll] true delall_d)) (fst (spec_update 2 [KDeleteAll] true delall_s)).
+Proof. exact tx_delete_all_refuted. Qed.
+
+(* non-vacuity: a history with a committing block of three writes on three types, a block whose second call fails after its first changed something (rolled back), a block that ignores errors without meeting one *)
+Theorem the_premises_for_transactions_are_satisfiable :
+  side_ok_items' demo_tx_history empty_db /\ times_ok_items 0 demo_tx_history.
+Proof. exact demo_tx_side_ok. Qed.
+
 Print Assumptions every_history_over_all_types_refines_the_keyspace.
 Print Assumptions every_covered_operation_refines.
 Print Assumptions every_history_from_the_empty_database_refines_the_keyspace.
@@ -123,3 +210,13 @@ Print Assumptions scans_random_count_and_expiry_deletion_keep_the_refinement.
 Print Assumptions bulk_expiry_deletion_removes_only_expired_keys.
 Print Assumptions key_count_result_refuted.
 Print Assumptions the_premises_for_every_operation_are_satisfiable.
+Print Assumptions a_transaction_refines_the_specifications_transaction.
+Print Assumptions a_transaction_without_errors_refines_too.
+Print Assumptions a_committed_transaction_is_its_operations_one_by_one.
+Print Assumptions a_call_inside_a_transaction_that_succeeds_is_the_method_on_the_handle.
+Print Assumptions code_and_specification_fail_alike.
+Print Assumptions every_history_with_transactions_refines_the_keyspace.
+Print Assumptions every_history_with_transactions_from_the_empty_database.
+Print Assumptions ignoring_an_error_and_committing_refuted.
+Print Assumptions delete_all_inside_a_transaction_refuted.
+Print Assumptions the_premises_for_transactions_are_satisfiable.
